@@ -31,17 +31,68 @@ class ReplayDivergence(BaseException):
 HORIZON = 400
 
 
+class InjectedCrash(RuntimeError):
+    """the injected failure of a worker's computation (stands for MemoryError & co inside the aligner)"""
+
+
+class crash_injection:
+    """Context manager: while the worker body runs, its k-th alignment (0-based) raises InjectedCrash.
+    Injected through the aligner name the worker module uses; for k beyond the alignments of the batch (or when
+    the module has no such name) the crash is raised from the k-th queue put instead."""
+
+    def __init__(self, module, k, recq):
+        self.m, self.k, self.recq = module, k, recq
+        self.real = None
+        self.calls = 0
+        self.fired = False
+
+    def __enter__(self):
+        outer = self
+        self.real = getattr(self.m, "WavefrontAligner", None)
+        if self.real is not None:
+
+            class CrashingAligner:
+                def __init__(self, *a, **kw):
+                    self._real = outer.real(*a, **kw)
+
+                def __call__(self, *a, **kw):
+                    n = outer.calls
+                    outer.calls += 1
+                    if n == outer.k:
+                        outer.fired = True
+                        raise InjectedCrash(f"injected failure while aligning record {n} of the batch")
+                    return self._real(*a, **kw)
+
+                def __getattr__(self, name):
+                    return getattr(self._real, name)
+
+            self.m.WavefrontAligner = CrashingAligner
+        self.recq.crash_at_put = self.k
+        self.recq.crash_owner = self
+        return self
+
+    def __exit__(self, *exc):
+        if self.real is not None:
+            self.m.WavefrontAligner = self.real
+        return False
+
+
 class _RecQueue:
     """What the worker body sees as its queue while its behaviour is being recorded."""
 
     def __init__(self):
         self.items = []
+        self.crash_at_put = None
+        self.crash_owner = None
 
     def put(self, item, block=True, timeout=None):
+        if self.crash_at_put is not None and len(self.items) == self.crash_at_put and not self.crash_owner.fired:
+            self.crash_owner.fired = True
+            raise InjectedCrash(f"injected failure at queue put {len(self.items)}")
         self.items.append(item)
 
     def put_nowait(self, item):
-        self.items.append(item)
+        self.put(item)
 
     def __getattr__(self, name):
         raise ModelIncomplete(f"worker used queue.{name}")
@@ -105,6 +156,7 @@ class VProcess:
         self.done = False  # exited or died
         self.code = None
         self.natural_code = 0
+        self.crash_fired = False
         self.joined = False
 
     def start(self):
@@ -229,7 +281,7 @@ class Exec:
         """perform the next event of worker w."""
         self.nevents += 1
         f = self.faults.get(w.wid)
-        if f is not None and w.delivered == f["k"]:
+        if f is not None and f["code"] < 0 and w.delivered == f["k"]:
             w.done, w.code = True, f["code"]
             return ("die", w.wid)
         if w.delivered < len(w.msgs):
@@ -379,8 +431,19 @@ class Exec:
         for a in p.args:
             call.append(rq if isinstance(a, VQueue) else next(it))
         p.q = qs[0] if qs else None
+        f = self.faults.get(p.wid)
         try:
-            p.target(*call, **p.kwargs)
+            if f is not None and f["code"] >= 0:
+                # a crash (Python exception) inside the worker body: the worker's own code decides what still happens
+                import gaftools.cli.realign as R
+
+                with crash_injection(R, f["k"], rq) as inj:
+                    try:
+                        p.target(*call, **p.kwargs)
+                    finally:
+                        p.crash_fired = inj.fired
+            else:
+                p.target(*call, **p.kwargs)
             p.natural_code = 0
         except ModelIncomplete:
             raise
